@@ -1,0 +1,42 @@
+//go:build verif
+
+package fzf
+
+import (
+	"net"
+	"os"
+)
+
+// VerifListenStart parses a --listen address as the option parser does and, with FZF_API_KEY set
+// to `key`, starts the real listener for it. It reports the host and port the parser produced,
+// whether the address is held to be local, whether the listener started and, if so, whether the
+// socket it is bound to is a loopback address. The listener is closed again.
+func VerifListenStart(address string, key string) (host string, port int, local bool, parseErr bool, started bool, loopback bool) {
+	addr, err := parseListenAddress(address)
+	if err != nil {
+		return "", 0, false, true, false, false
+	}
+	host, port, local = addr.host, addr.port, addr.IsLocal()
+	prev, had := os.LookupEnv("FZF_API_KEY")
+	if key == "" {
+		os.Unsetenv("FZF_API_KEY")
+	} else {
+		os.Setenv("FZF_API_KEY", key)
+	}
+	defer func() {
+		if had {
+			os.Setenv("FZF_API_KEY", prev)
+		} else {
+			os.Unsetenv("FZF_API_KEY")
+		}
+	}()
+	listener, _, err := startHttpServer(addr, make(chan []*action, 1), func(getParams) string { return "" })
+	if err != nil {
+		return host, port, local, false, false, false
+	}
+	defer listener.Close()
+	if tcp, ok := listener.Addr().(*net.TCPAddr); ok {
+		loopback = tcp.IP.IsLoopback()
+	}
+	return host, port, local, false, true, loopback
+}
